@@ -508,6 +508,12 @@ func vsGenTerms(T *sim.Tape, m *vsModel, allowEmpty bool) []vsTerm {
 		for i := 0; i < m; i++ {
 			terms = append(terms, vsTerm{k, []byte{'<', '>'}[T.Intn(2, "stack-op")], vs[T.Intn(len(vs), "stack-val")]})
 		}
+		if T.Intn(3, "stack-empty-bound") == 0 {
+			// an empty bound among them: "k<" can never hold, "k>" holds for every record that has the key
+			t := vsTerm{k, []byte{'<', '>'}[T.Intn(2, "empty-bound-op")], ""}
+			at := T.Intn(len(terms)+1, "empty-bound-at")
+			terms = append(terms[:at], append([]vsTerm{t}, terms[at:]...)...)
+		}
 		if T.Bool("stack-plus-eq") {
 			terms = append(terms, vsTerm{k, ':', vs[T.Intn(len(vs)-4, "stack-eq")]})
 		}
